@@ -15,7 +15,7 @@ BUDGET = {"quick": 900, "thorough": 50000}
 KINDS = ["arc", "origin", "angle", "angle-neg", "spline", "polyLine", "project", "oncurve-circle", "oncurve-line", "oncurve-interp"]
 TREATS = [["none"], ["invert"], ["shift", 1], ["shift", 2], ["shift", -1], ["reorient", 1], ["reorient", 2], ["reorient", 3]]
 REQUIRED = ["judged:entry-curve", "judged:length", "judged:omitted", "judged:defined-twice", "treat:invert", "treat:shift",
-            "treat:reorient", "pos:closing-edge", "kind:angle", "kind:spline", "kind:oncurve-circle"]
+            "treat:reorient", "pos:closing-edge", "kind:angle", "kind:spline", "kind:oncurve-circle", "special:shared-angle-object"]
 MIN_KEYS = 200
 RULE = (
     "one general hexahedron (random frame, offset, jitter) carrying ONE user-defined edge: exhaustive grid 12 positions x 10 "
@@ -187,9 +187,21 @@ def fixed_cases(tier):
     return out
 
 
+def shared_angle_case(rng, treat, n_shared):
+    """a square inscribed in a circle (random frame): ONE Angle(pi/2, normal) object is put on 2 or 4 of its edges"""
+    fr = geom.orthonormal_frame(rng)
+    c = np.array(geom.rand_vec(rng, -4, 4))
+    R = rng.uniform(0.6, 2.0)
+    quad = [list(c + R * (math.cos(k * math.pi / 2) * fr[0] + math.sin(k * math.pi / 2) * fr[1])) for k in range(4)]
+    return {"special": "shared-angle", "quad": quad, "centre": list(c), "normal": list(fr[2] * rng.uniform(0.5, 2)), "R": R,
+            "height": rng.uniform(0.8, 2.0), "treat": treat, "edges": [0, 2] if n_shared == 2 else [0, 1, 2, 3]}
+
+
 def gen_case(ctx):
     rng = ctx.rng
     u = rng.random()
+    if u > 0.93:
+        return shared_angle_case(rng, rng.choice([["none"], ["invert"], ["shift", 1], ["op-invert"]]), rng.choice([2, 4]))
     pos = rng.randrange(12)
     kind = rng.choice(KINDS)
     treat = rng.choice(TREATS)
@@ -266,9 +278,63 @@ def build_ops(case, cb):
     return ops, P, Q
 
 
+def run_shared_angle(ctx, case):
+    """the same edge-data object on several edges of one face: after invert / shift every arc still bulges outwards"""
+    import classy_blocks as cb
+
+    c, n, R = np.array(case["centre"]), geom.unit(case["normal"]), case["R"]
+    quad = [np.array(p) for p in case["quad"]]
+    shared = cb.Angle(math.pi / 2, list(case["normal"]))
+    bottom = cb.Face(quad, [shared if k in case["edges"] else None for k in range(4)])
+    top = cb.Face([p + n * case["height"] for p in quad])
+    t = case["treat"]
+    if t[0] == "invert":
+        bottom, top = top.invert(), bottom.invert()
+    elif t[0] == "shift":
+        bottom.shift(t[1])
+        top.shift(t[1])
+    op = cb.Loft(bottom, top)
+    if t[0] == "op-invert":
+        op.invert()
+    for a in range(3):
+        op.chop(a, count=2)
+    mesh = cb.Mesh()
+    mesh.add(op)
+    path = util.tmpfile("c07s")
+    got, err = util.write_outcome(mesh, path)
+    ctx.evaluated()
+    ctx.count("special:shared-angle-object")
+    ctx.count(f"treat:{t[0]}")
+    ctx.key(["shared-angle", t, len(case["edges"])])
+    if got != "success":
+        util.rm(path)
+        ctx.violation(f"write-failed:{got}", f"{err!r}")
+        return
+    parsed = foamdict.read_blockmesh(path)
+    util.rm(path)
+    vpos = [np.array(v["pos"]) for v in parsed["vertices"]]
+    found = 0
+    for e in parsed["edges"]:
+        a, b = vpos[e["a"]], vpos[e["b"]]
+        in_plane = abs(np.dot(a - c, n)) < 1e-6 and abs(np.dot(b - c, n)) < 1e-6
+        if e["kind"] == "arc" and in_plane:
+            found += 1
+            p = np.array(e["point"])
+            mid_dir = (a + b) / 2 - c
+            if abs(np.linalg.norm(p - c) - R) > 1e-6 * R or np.dot(p - c, mid_dir) <= 0:
+                ctx.violation(f"shared-edge-object:arc-off-the-circle:{t[0]}",
+                              f"one Angle object on edges {case['edges']} of a face, treatment {t}: arc {e['a']} {e['b']} has its third point at "
+                              f"radius {np.linalg.norm(p - c):.6f} (circle radius {R:.6f})" + (" on the inner side" if np.dot(p - c, mid_dir) <= 0 else ""))
+                return
+    if found != len(case["edges"]):
+        ctx.violation(f"shared-edge-object:arc-count:{t[0]}", f"{found} arc entries in the face plane, {len(case['edges'])} edges carry the Angle")
+
+
 def run_case(ctx, case):
     import classy_blocks as cb
 
+    if case.get("special") == "shared-angle":
+        return run_shared_angle(ctx, case)
     d = case["data"]
     kind = d["kind"]
     ops, P, Q = build_ops(case, cb)
